@@ -47,7 +47,7 @@ func nextNonce() int64 { return nonce.Add(1) }
 // classes per kind. "accept" classes are the ones the native authenticator type must accept.
 var (
 	basicClasses  = []string{"valid", "wrongpw", "wronguser", "colonpw", "nocolon", "badb64"}
-	jwtClasses    = []string{"valid", "validnokid", "badsig", "expired", "notyet", "wrongiss", "wrongaud", "unknownkid", "hs256", "unsupalg", "badpayload", "jwks500", "jwksgarbage", "jwksdrop"}
+	jwtClasses    = []string{"valid", "validnokid", "badsig", "expired", "notyet", "wrongiss", "wrongaud", "unknownkid", "hs256", "unsupalg", "badpayload", "jwks500", "jwksgarbage", "jwksdrop", "meta500", "issbreaksurl"}
 	opaqueClasses = []string{"valid", "inactive", "expired", "wrongiss", "wrongaud", "nosub", "e500", "garbage", "drop"}
 	sessClasses   = []string{"valid", "denied", "inactive", "expired", "nosub", "e500", "garbage", "drop"}
 	junkClasses   = []string{"plain", "threedots", "blank"}
@@ -60,7 +60,7 @@ func classGroup(kind, class string) string {
 		return "valid"
 	case kind == "junk" || class == "nocolon" || class == "badb64":
 		return "malformed"
-	case class == "e500" || class == "garbage" || class == "drop" || class == "jwks500" || class == "jwksgarbage" || class == "jwksdrop":
+	case class == "e500" || class == "garbage" || class == "drop" || class == "jwks500" || class == "jwksgarbage" || class == "jwksdrop" || class == "meta500" || class == "issbreaksurl":
 		return "endpoint-failing"
 	}
 	return "wellformed-invalid"
@@ -72,6 +72,7 @@ const (
 	iss500     = "iss-500"
 	issGarbage = "iss-garbage"
 	issDrop    = "iss-drop"
+	issMeta500 = "iss-meta-500" // the metadata endpoint of this issuer answers 500 (its JWKS is fine, it is not a trusted issuer)
 	audOK      = "aud-ok"
 	kidOK      = "k1"
 )
@@ -163,6 +164,12 @@ func (m *minter) jwt(class, sub string) string {
 		claims["iss"] = issGarbage
 	case "jwksdrop":
 		claims["iss"] = issDrop
+	case "meta500":
+		claims["iss"] = issMeta500
+	case "issbreaksurl":
+		// correctly signed, but the issuer makes every endpoint url templated with .TokenIssuer unusable: invalid
+		// percent escapes, a control character
+		claims["iss"] = issOK + []string{"%zz", "%", "\x7f"}[nextNonce()%3]
 	case "badpayload":
 	default:
 		panic("unknown jwt class " + class)
